@@ -48,7 +48,7 @@ func init() {
 		Mutant{Name: "c14-dnn-empty", Prop: "C14", File: "nasType/NAS_DNN.go", Old: "\tif len(fqdn) == 0 {\n\t\treturn \"\"\n\t}\n", New: "",
 			Expect: "safe.slice / nasType.rfc1035tofqdn", Why: "empty DNN slices [:-1]"},
 		Mutant{Name: "c14-nssai-wrap", Prop: "C14", File: "nasConvert/Nssai.go", Old: "\tdefault:\n\t\treturn snssai, fmt.Errorf(\"Invalid length of S-NSSAI contents: %d\", lengthOfSnssaiContents)", New: "\tdefault:\n\t\treturn snssai, nil",
-			Expect: "nasConvert.RequestedNssaiToModels", Why: "unknown lengths accepted: 255+1 wraps to 0 in uint8 and the walker stops advancing"},
+			Keep: true, Why: "unknown lengths accepted (a C13 matter); for C14 this is harmless: the length test just before guarantees L+1 <= len(buf) <= 255, so uint8(L+1) cannot wrap to 0 and the walker still advances - the elimination prover establishes exactly that (an earlier, weaker E3 flagged it: a false alarm)"},
 		Mutant{Name: "c14-suci-convert-short", Prop: "C14", File: "nasConvert/MobileIdentity5GS.go", Old: "\tif len(buf) < 9 {\n\t\treturn \"\", \"\", errors.New(\"too short SUCI\")\n\t}\n", New: "\tif len(buf) < 8 {\n\t\treturn \"\", \"\", errors.New(\"too short SUCI\")\n\t}\n",
 			Expect: "nasConvert.SuciToStringWithError", Why: "empty MSIN indexes -1"},
 		Mutant{Name: "c14-keep-guard-form", Prop: "C14", File: "nasConvert/UESecurityCapability.go", Old: "if len(buf) > 3 {", New: "if len(buf) >= 4 {", Keep: true, Why: "same guard"},
